@@ -104,6 +104,35 @@ pub open spec fn lit_true_p(l: Literal, m: PartialModel) -> bool { m.val(l.lbl) 
 pub open spec fn clause_true_p(c: Seq<Literal>, m: PartialModel) -> bool { exists|j: int| 0 <= j < c.len() && lit_true_p(#[trigger] c[j], m) }
 pub open spec fn cnf_true_p(cs: Seq<Vec<Literal>>, m: PartialModel) -> bool { forall|i: int| 0 <= i < cs.len() ==> clause_true_p((#[trigger] cs[i])@, m) }
 
+pub proof fn lemma_clause_push(c: Seq<Literal>, l: Literal, a: Seq<bool>)
+    ensures clause_true(c.push(l), a) == (clause_true(c, a) || lit_true(l, a)),
+{
+    let t = c.push(l);
+    if clause_true(t, a) {
+        let j = choose|j: int| 0 <= j < t.len() && lit_true(#[trigger] t[j], a);
+        if j < c.len() { assert(t[j] == c[j]); } else { assert(t[j] == l); }
+    }
+    if clause_true(c, a) {
+        let j = choose|j: int| 0 <= j < c.len() && lit_true(#[trigger] c[j], a);
+        assert(t[j] == c[j]);
+    }
+    if lit_true(l, a) { assert(t[c.len() as int] == l); }
+}
+pub proof fn lemma_cnf_push(cs: Seq<Vec<Literal>>, c: Vec<Literal>, a: Seq<bool>)
+    ensures cnf_true(cs.push(c), a) == (cnf_true(cs, a) && clause_true(c@, a)),
+{
+    let t = cs.push(c);
+    if cnf_true(t, a) {
+        assert forall|i: int| 0 <= i < cs.len() implies clause_true((#[trigger] cs[i])@, a) by { assert(t[i] == cs[i]); }
+        assert(t[cs.len() as int] == c);
+    }
+    if cnf_true(cs, a) && clause_true(c@, a) {
+        assert forall|i: int| 0 <= i < t.len() implies clause_true((#[trigger] t[i])@, a) by {
+            if i < cs.len() { assert(t[i] == cs[i]); } else { assert(t[i] == c); }
+        }
+    }
+}
+
 impl Cnf {
     /// every literal's label is below num_vars
     pub open spec fn wf(self) -> bool {
@@ -147,5 +176,52 @@ impl Cnf {
                 invariant
                     0 <= it.index@ < self.clauses.len(), clause@ == self.clauses@[it.index@ as int]@,
                     clause_sat == (exists|j: int| 0 <= j < jt.index@ && lit_true_p(#[trigger] clause@[j], *partial_assignment)),
+//%% end
+
+    // A-cnf-new: `Cnf::new` is iterator-adapter code (map/collect, sort_by_key, dedup, max) that Verus cannot read; for
+    // `condition` it is this stub: the clause list it stores has the meaning of the one it was given (sorting and
+    // removing adjacent duplicates preserve a disjunction) and every label is below num_vars [bounded check `cnf`]
+    #[verifier::external_body]
+    pub fn new(clauses: &[Vec<Literal>]) -> (r: Cnf)
+        ensures
+            r.wf(),
+            forall|a: Seq<bool>| #[trigger] cnf_true(r.clauses@, a) == cnf_true(clauses@, a),
+    { unimplemented!() }
+
+// R-for-while: both loops use labelled `continue`, which Verus accepts only in `while` loops: each
+// `for x in v.iter()` becomes an indexed `while` over the same Vec; the loop bodies are the real text.
+//%% extract src/repr/cnf.rs :: impl Cnf :: fn condition
+//%% @attr #[verifier::loop_isolation(false)]
+//%% @ret r
+//%% @rewrite 1 /'cnf: for clause in self\.clauses\.iter\(\) \{/ => let mut cnf__i: usize = 0;\n        'cnf: while cnf__i < self.clauses.len() {\n            let clause = &self.clauses[cnf__i];\n            cnf__i += 1;
+//%% @rewrite 1 /'clause: for l in clause\.iter\(\) \{/ => let mut cl__j: usize = 0;\n            'clause: while cl__j < clause.len() {\n                let l = &clause[cl__j];\n                cl__j += 1;
+//%% @spec
+        requires self.wf(),
+        ensures
+            r.wf(),
+            // (F | lit) evaluates on `a` like F on `a` with lit's variable set to lit's polarity
+            forall|a: Seq<bool>| #![trigger cnf_true(r.clauses@, a)] lit.lbl.0 < a.len() && self.num_vars <= a.len() ==>
+                cnf_true(r.clauses@, a) == cnf_true(self.clauses@, a.update(lit.lbl.0 as int, lit.pol)),
+//%% @entry
+        proof {
+            assert forall|c: Seq<Literal>, l: Literal, a: Seq<bool>| #![trigger clause_true(c.push(l), a)]
+                clause_true(c.push(l), a) == (clause_true(c, a) || lit_true(l, a)) by { lemma_clause_push(c, l, a); }
+            assert forall|cs: Seq<Vec<Literal>>, c: Vec<Literal>, a: Seq<bool>| #![trigger cnf_true(cs.push(c), a)]
+                cnf_true(cs.push(c), a) == (cnf_true(cs, a) && clause_true(c@, a)) by { lemma_cnf_push(cs, c, a); }
+        }
+//%% @loop 1 /^while cnf__i < self\.clauses\.len\(\)$/
+            invariant
+                cnf__i <= self.clauses.len(),
+                forall|a: Seq<bool>| #![trigger cnf_true(new_cnf@, a)] lit.lbl.0 < a.len() && self.num_vars <= a.len() ==>
+                    cnf_true(new_cnf@, a) == (forall|i: int| 0 <= i < cnf__i ==> clause_true((#[trigger] self.clauses@[i])@, a.update(lit.lbl.0 as int, lit.pol))),
+            decreases self.clauses.len() - cnf__i,
+//%% @loop 2 /^while cl__j < clause\.len\(\)$/
+                invariant
+                    cl__j <= clause.len(),
+                    // no literal seen so far is `lit`; new_clause holds the seen literals on other variables
+                    forall|j: int| 0 <= j < cl__j ==> (#[trigger] clause@[j]) != lit,
+                    forall|a: Seq<bool>| #![trigger clause_true(new_clause@, a)] lit.lbl.0 < a.len() && self.num_vars <= a.len() ==>
+                        clause_true(new_clause@, a) == (exists|j: int| 0 <= j < cl__j && lit_true(#[trigger] clause@[j], a.update(lit.lbl.0 as int, lit.pol))),
+                decreases clause.len() - cl__j,
 //%% end
 }
